@@ -5,9 +5,11 @@
   Principals.Contains, Resources.FindMatch, BucketPolicy.isAllowed, VerifyBucketPolicy,
   ValidatePolicyDocument) against Spec.Glob.G and Spec.Policy.
 
-  On the unchanged tree four statements do not hold at full strength; each is kept visible as a
-  `def …_full : Prop`, proved as `…_partial` under a decidable hypothesis that excludes exactly the
-  failing class, and refuted from a concrete witness in Open/C14.lean.
+  After the fixes 4562263 / ade9d47 in /repo the matcher, the statement matchers, the decision and the
+  order-independence of validation hold at full strength.  One statement still does not: a statement
+  lacking Principal, Action or Resource is accepted (`validate:missing-field`); it is kept visible as
+  `def validate_iff_wellformed_full : Prop`, proved as `…_partial` under the decidable hypothesis
+  that excludes exactly that class, and refuted from a concrete witness in Open/C14.lean.
 -/
 import Vgw.Lemmas.Policy
 import Vgw.Lemmas.ValidateOrder
@@ -16,14 +18,10 @@ open Vgw Vgw.Model.Policy Vgw.Spec.Policy Vgw.Spec.Glob Vgw.Lemmas.Glob Vgw.Lemm
 
 /-! ## the matcher -/
 
-/-- FULL statement: the real matcher is the declarative glob, for all patterns and subjects.
-FALSE on the unchanged tree (Open.C14.match_iff_glob_full_false): signature `glob:subject-contains-star`. -/
-def match_iff_glob_full : Prop := ∀ p s : Bytes, Model.Glob.match p s = G p s
-
-/-- The two-pointer backtracking matcher equals the declarative glob semantics for EVERY pattern and
-every subject that does not itself contain the byte `*`. -/
-theorem match_iff_glob_partial (p s : Bytes) (hs : star ∉ s) : Model.Glob.match p s = G p s := by
-  have h := loop_correct p s hs 0 0 none 0 (Nat.le_refl 0) (inv_init p s)
+/-- The two-pointer backtracking matcher equals the declarative glob semantics (`*` any run of
+bytes, `?` exactly one byte) for EVERY pattern and EVERY subject. -/
+theorem match_iff_glob (p s : Bytes) : Model.Glob.match p s = G p s := by
+  have h := loop_correct p s 0 0 none 0 (Nat.le_refl 0) (inv_init p s)
   have e : Model.Glob.match p s = accept p (Model.Glob.loop p s 0 0 none 0 (Nat.le_refl 0)) := by
     unfold Model.Glob.match accept
     cases Model.Glob.loop p s 0 0 none 0 (Nat.le_refl 0) <;> rfl
@@ -33,15 +31,6 @@ theorem match_iff_glob_partial (p s : Bytes) (hs : star ∉ s) : Model.Glob.matc
     · rfl
     · rw [h.1 ha] at hg; cases hg
   · exact h.2 hg
-
-/-- Soundness holds for ALL subjects (also those containing `*`): the real matcher never matches
-something the glob does not — the deviation is only ever a missed match. -/
-theorem match_sound (p s : Bytes) (h : Model.Glob.match p s = true) : G p s = true := by
-  have e : Model.Glob.match p s = accept p (Model.Glob.loop p s 0 0 none 0 (Nat.le_refl 0)) := by
-    unfold Model.Glob.match accept
-    cases Model.Glob.loop p s 0 0 none 0 (Nat.le_refl 0) <;> rfl
-  rw [e] at h
-  exact loop_sound p s 0 0 none 0 (Nat.le_refl 0) (sinv_init p s) h
 
 /-! ## statement matching -/
 
@@ -54,25 +43,25 @@ theorem action_match_iff (st : Stmt) (act : Bytes) :
 theorem principal_match_iff (st : Stmt) (who : Bytes) :
     principalsContains st.principals who = true ↔ PrincipalHit st who := principals_iff st who
 
-/-- `Resources.FindMatch` = some pattern matches by `G` — for star-free resource strings. -/
-theorem resource_match_iff_partial (st : Stmt) (res : Bytes) (hs : star ∉ res) :
+/-- `Resources.FindMatch` = some pattern matches by `G` — for every resource string. -/
+theorem resource_match_iff (st : Stmt) (res : Bytes) :
     resourcesFindMatch st.resources res = true ↔ ResourceHit st res := by
   unfold resourcesFindMatch ResourceHit
   rw [List.any_eq_true]
   constructor
-  · rintro ⟨r, hr, hm⟩; exact ⟨r, hr, by rw [← match_iff_glob_partial r res hs]; exact hm⟩
-  · rintro ⟨r, hr, hm⟩; exact ⟨r, hr, by rw [match_iff_glob_partial r res hs]; exact hm⟩
+  · rintro ⟨r, hr, hm⟩; exact ⟨r, hr, by rw [← match_iff_glob r res]; exact hm⟩
+  · rintro ⟨r, hr, hm⟩; exact ⟨r, hr, by rw [match_iff_glob r res]; exact hm⟩
 
-theorem stmt_match_iff_partial (st : Stmt) (who act res : Bytes) (hs : star ∉ res) :
+theorem stmt_match_iff (st : Stmt) (who act res : Bytes) :
     stmtFindMatch st who act res = true ↔ Hit st who act res := by
   unfold stmtFindMatch Hit
   rw [Bool.and_eq_true, Bool.and_eq_true, principal_match_iff, action_match_iff,
-    resource_match_iff_partial st res hs, and_assoc]
+    resource_match_iff st res, and_assoc]
 
 /-! ## the decision -/
 
 /-- `BucketPolicy.isAllowed` is deny-overrides with default deny over the statements that
-`findMatch`, for any number and any order of statements (no hypothesis). -/
+`findMatch`, for any number and any order of statements. -/
 theorem isAllowed_deny_overrides (pol : Policy) (who act res : Bytes) :
     isAllowed pol who act res = true ↔
       ((∃ st ∈ pol, st.effect = allowLit ∧ stmtFindMatch st who act res = true) ∧
@@ -80,25 +69,22 @@ theorem isAllowed_deny_overrides (pol : Policy) (who act res : Bytes) :
   unfold isAllowed
   rw [loop_iff]; simp
 
-/-- FULL statement. FALSE on the unchanged tree (Open.C14.isAllowed_iff_full_false). -/
-def isAllowed_iff_full : Prop :=
-  ∀ (pol : Policy) (who act res : Bytes), isAllowed pol who act res = true ↔ Allows pol who act res
-
 /-- A request is allowed exactly when at least one Allow statement matches caller, action and
-resource and no Deny statement does — for every policy, caller, action and star-free resource. -/
-theorem isAllowed_iff_partial (pol : Policy) (who act res : Bytes) (hs : star ∉ res) :
+resource and no Deny statement does — for every policy (any number and order of statements),
+caller, action and resource string. -/
+theorem isAllowed_iff (pol : Policy) (who act res : Bytes) :
     isAllowed pol who act res = true ↔ Allows pol who act res := by
   rw [isAllowed_deny_overrides]
   unfold Allows
   constructor
   · rintro ⟨⟨st, hst, he, hm⟩, hd⟩
-    refine ⟨⟨st, hst, he, (stmt_match_iff_partial st who act res hs).1 hm⟩, ?_⟩
+    refine ⟨⟨st, hst, he, (stmt_match_iff st who act res).1 hm⟩, ?_⟩
     rintro ⟨st', hst', he', hm'⟩
-    exact hd ⟨st', hst', he', (stmt_match_iff_partial st' who act res hs).2 hm'⟩
+    exact hd ⟨st', hst', he', (stmt_match_iff st' who act res).2 hm'⟩
   · rintro ⟨⟨st, hst, he, hm⟩, hd⟩
-    refine ⟨⟨st, hst, he, (stmt_match_iff_partial st who act res hs).2 hm⟩, ?_⟩
+    refine ⟨⟨st, hst, he, (stmt_match_iff st who act res).2 hm⟩, ?_⟩
     rintro ⟨st', hst', he', hm'⟩
-    exact hd ⟨st', hst', he', (stmt_match_iff_partial st' who act res hs).1 hm'⟩
+    exact hd ⟨st', hst', he', (stmt_match_iff st' who act res).1 hm'⟩
 
 /-- `VerifyBucketPolicy` asks about the bucket itself or about `bucket/object`. -/
 theorem verify_resource (bucket object : Bytes) :
@@ -108,26 +94,11 @@ theorem verify_resource (bucket object : Bytes) :
   | nil => simp
   | cons c o => simp [slashLit]
 
-theorem verify_iff_partial (pol : Policy) (who bucket object act : Bytes)
-    (hs : star ∉ requestResource bucket object) :
+theorem verify_iff (pol : Policy) (who bucket object act : Bytes) :
     verify pol who bucket object act = true ↔ Allows pol who act (requestResource bucket object) := by
   unfold verify
   rw [verify_resource]
-  exact isAllowed_iff_partial pol who act _ hs
-
-/-- Even for resources containing `*`, a Deny that the real code applies is a Deny of the policy
-language, and an Allow it finds is an Allow (consequence of `match_sound`): every statement the
-code matches is a statement that hits. -/
-theorem stmt_match_sound (st : Stmt) (who act res : Bytes)
-    (h : stmtFindMatch st who act res = true) : Hit st who act res := by
-  unfold stmtFindMatch at h
-  rw [Bool.and_eq_true, Bool.and_eq_true, principal_match_iff, action_match_iff] at h
-  refine ⟨h.1.1, h.1.2, ?_⟩
-  have := h.2
-  unfold resourcesFindMatch at this
-  rw [List.any_eq_true] at this
-  obtain ⟨r, hr, hm⟩ := this
-  exact ⟨r, hr, match_sound r res hm⟩
+  exact isAllowed_iff pol who act _
 
 /-! ## validation
 
@@ -139,9 +110,16 @@ has the empty access key. -/
 theorem ordOK_of_perm (ord : List Bytes → List Bytes) (h : ∀ l, (ord l).Perm l) : OrdOK ord :=
   fun l _ => (h l).mem_iff
 
+/-- Validation is deterministic: the outcome (acceptance, or which error) is the same for every
+order in which the action maps are iterated. -/
+theorem validate_order_independent (ord₁ ord₂ : List Bytes → List Bytes) (bucket : Bytes)
+    (acct : Bytes → Bool) (doc : RawDoc) (h₁ : ∀ l, (ord₁ l).Perm l) (h₂ : ∀ l, (ord₂ l).Perm l) :
+    validateDocument ord₁ bucket acct doc = validateDocument ord₂ bucket acct doc :=
+  validateDocument_order bucket acct doc ord₁ ord₂ (ordOK_of_perm ord₁ h₁) (ordOK_of_perm ord₂ h₂)
+
 /-- FULL statement: must-accept documents are accepted and must-refuse documents are refused,
-whatever the map order.  FALSE on the unchanged tree (Open.C14.validate_iff_wellformed_full_false,
-and three separate witnesses, one per excluded class). -/
+whatever the map order.  FALSE on the current tree (Open.C14.validate_iff_wellformed_full_false):
+signature `validate:missing-field`. -/
 def validate_iff_wellformed_full : Prop :=
   ∀ (ord : List Bytes → List Bytes) (bucket : Bytes) (acct : Bytes → Bool) (doc : RawDoc),
     Sane bucket → acct [] = false → (∀ l, (ord l).Perm l) →
@@ -158,55 +136,27 @@ theorem validate_accepts_wellformed (ord : List Bytes → List Bytes) (bucket : 
 
 /-- Documents that are not valid policies for the bucket — bad JSON, no or empty statement list,
 bad effect, unknown action or principal, `*` mixed with accounts, empty members, resource outside
-the bucket, action/resource kind mismatch — are refused in every map iteration order, PROVIDED the
-document is outside the three failing classes: a statement lacking Principal/Action/Resource
-(`validate:missing-field`), a resource that merely starts with the bucket name
-(`validate:resource-prefix-of-other-bucket`), `s3:*` listed next to an action without a resource of
-its kind (`validate:map-order-dependent`). -/
+the bucket (also `bucket2/*`, `bucket*`), action/resource kind mismatch (also next to `s3:*`) — are
+refused in every map iteration order, PROVIDED no statement lacks its Principal, Action or Resource
+member (`validate:missing-field`, the one class still accepted by the code). -/
 theorem validate_iff_wellformed_partial (ord : List Bytes → List Bytes) (bucket : Bytes)
     (acct : Bytes → Bool) (doc : RawDoc) (hs : Sane bucket) (hacct : acct [] = false)
-    (hord : ∀ l, (ord l).Perm l)
-    (h1 : DocHyp StmtNoMissing doc) (h2 : DocHyp (StmtNoForeignPrefix bucket) doc)
-    (h3 : DocHyp (StmtOrderIndependent bucket) doc) :
+    (hord : ∀ l, (ord l).Perm l) (h1 : DocHyp StmtNoMissing doc) :
     (WellFormed .strict bucket acct doc → validateDocument ord bucket acct doc = .ok ()) ∧
     (¬ WellFormed .lenient bucket acct doc → validateDocument ord bucket acct doc ≠ .ok ()) :=
   ⟨validate_accepts_wellformed ord bucket acct doc hs hacct hord,
-   fun hn hok => hn (doc_accepted_wellformed ord bucket acct hs (ordOK_of_perm ord hord) doc h1 h2 h3 hok)⟩
+   fun hn hok => hn (doc_accepted_wellformed ord bucket acct hs (ordOK_of_perm ord hord) doc h1 hok)⟩
 
-/-- the two iteration orders the driver uses to predict the set of possible outcomes are orders -/
-theorem allFirst_perm (l : List Bytes) : (allFirst l).Perm l := by
-  unfold allFirst
-  have := List.filter_append_perm (fun x => decide (x = allActions)) l
-  simpa using this
-
-theorem allLast_perm (l : List Bytes) : (allLast l).Perm l := by
-  unfold allLast
-  have := List.filter_append_perm (fun x => decide (x = allActions)) l
-  exact (List.perm_append_comm.trans (by simpa using this))
-
-/-- Whether a document is accepted can depend on the map order, but only between two extremes: if
-ANY order accepts, the order "`s3:*` first" accepts; if the order "`s3:*` last" accepts, EVERY order
-accepts.  (The driver evaluates these two orders to tell the harness which observations of the
-real validator are admissible.) -/
-theorem validate_order_span (ord : List Bytes → List Bytes) (bucket : Bytes) (acct : Bytes → Bool)
-    (doc : RawDoc) (hord : ∀ l, (ord l).Perm l) :
-    (validateDocument ord bucket acct doc = .ok () → validateDocument allFirst bucket acct doc = .ok ()) ∧
-    (validateDocument allLast bucket acct doc = .ok () → validateDocument ord bucket acct doc = .ok ()) :=
-  ⟨validateDocument_order bucket acct doc ord allFirst
-      (fun o b l => kindLoop_allFirst o b ord (ordOK_of_perm ord hord) l),
-   validateDocument_order bucket acct doc allLast ord
-      (fun o b l => kindLoop_allLast o b ord (ordOK_of_perm ord hord) l)⟩
-
-/-! ## Non-vacuity: concrete inputs meeting the hypotheses (tests, not proofs of the properties).
+/-! ## Non-vacuity and regression examples: concrete inputs (tests, not proofs of the properties).
 `a*b?c` = [97,42,98,63,99]; `axxbbybzc` = [97,120,120,98,98,121,98,122,99]. -/
 
-example : star ∉ ([97, 120, 120, 98, 98, 121, 98, 122, 99] : Bytes) := by decide
 example : Model.Glob.match [97, 42, 98, 63, 99] [97, 120, 120, 98, 98, 121, 98, 122, 99] = true := by
-  rw [match_iff_glob_partial _ _ (by decide)]; simp [G, star, qmark]
+  rw [match_iff_glob]; simp [G, star, qmark]
 example : G [97, 42, 98, 63, 99] [97, 120, 120, 98, 98, 121, 98, 122] = false := by simp [G, star, qmark]
-/-- `*a` against `*a`: a subject with a star on which the matcher does answer `true` (match_sound applies) -/
-example : Model.Glob.match [42, 97] [42, 97] = true := by
+/-- former witness of `glob:subject-contains-star` (pattern `*`, subject `*a`): now a match -/
+example : Model.Glob.match [42] [42, 97] = true := by
   simp [Model.Glob.match, Model.Glob.loop, Model.Glob.skipStars, Model.Glob.star, Model.Glob.qmark]
+example : Model.Glob.match [42] [42, 97] = G [42] [42, 97] := match_iff_glob _ _
 
 def exGetObject : Bytes := [115, 51, 58, 71, 101, 116, 79, 98, 106, 101, 99, 116]   -- s3:GetObject
 def exGetStar : Bytes := [115, 51, 58, 71, 101, 116, 42]                              -- s3:Get*
@@ -219,9 +169,9 @@ example : ActionHit exStmt exGetObject := by decide
 example : actionsFindMatch exStmt.actions exGetObject = true := (action_match_iff _ _).2 (by decide)
 example : PrincipalHit exStmt exAlice ∧ ¬ PrincipalHit exStmt [98, 111, 98] := by decide
 example : principalsContains exStmt.principals exAlice = true := (principal_match_iff _ _).2 (by decide)
-example : star ∉ requestResource exBucket [107] := by decide
-example : isAllowed [exStmt] exAlice exGetObject (requestResource exBucket [107]) = true := by
-  rw [isAllowed_iff_partial _ _ _ _ (by decide)]
+/-- the object key is `*k`: a resource string containing `*` -/
+example : isAllowed [exStmt] exAlice exGetObject (requestResource exBucket [42, 107]) = true := by
+  rw [isAllowed_iff]
   refine ⟨⟨exStmt, by simp, rfl, by decide, by decide, ?_⟩, ?_⟩
   · exact ⟨exBucket ++ [47, 42], by simp [exStmt], by simp [G, star, qmark, exBucket, requestResource]⟩
   · rintro ⟨st, hst, he, _⟩
@@ -229,7 +179,7 @@ example : isAllowed [exStmt] exAlice exGetObject (requestResource exBucket [107]
     subst hst
     exact absurd he (by decide)
 example : verify [exStmt] exAlice exBucket [107] exGetObject = true := by
-  rw [verify_iff_partial _ _ _ _ _ (by decide)]
+  rw [verify_iff]
   refine ⟨⟨exStmt, by simp, rfl, by decide, by decide, ?_⟩, ?_⟩
   · exact ⟨exBucket ++ [47, 42], by simp [exStmt], by simp [G, star, qmark, exBucket, requestResource]⟩
   · rintro ⟨st, hst, he, _⟩
@@ -237,27 +187,43 @@ example : verify [exStmt] exAlice exBucket [107] exGetObject = true := by
     subst hst
     exact absurd he (by decide)
 
+/-- former witness at the level of the decision: Allow `b/?x`, Deny `b/*`, request `b/*x` — the Deny
+now applies -/
+example : isAllowed [⟨allowLit, [starLit], [exGetObject], [[98, 47, 63, 120]]⟩,
+    ⟨denyLit, [starLit], [exGetObject], [[98, 47, 42]]⟩] exAlice exGetObject [98, 47, 42, 120] = false := by
+  have m1 : Model.Glob.match [98, 47, 63, 120] [98, 47, 42, 120] = true := by
+    simp [Model.Glob.match, Model.Glob.loop, Model.Glob.skipStars, Model.Glob.star, Model.Glob.qmark]
+  have m2 : Model.Glob.match [98, 47, 42] [98, 47, 42, 120] = true := by
+    simp [Model.Glob.match, Model.Glob.loop, Model.Glob.skipStars, Model.Glob.star, Model.Glob.qmark]
+  simp [isAllowed, isAllowedLoop, stmtFindMatch, principalsContains, actionsFindMatch,
+    resourcesFindMatch, m1, m2, starLit, allowLit, denyLit, exGetObject, allActions]
+
 /-- `{"Statement":[{"Effect":"Allow","Principal":"*","Action":["s3:Get*"],"Resource":["arn:aws:s3:::bucket","arn:aws:s3:::bucket/*"]}]}` -/
 def exDocOK : RawDoc := .stmts [⟨.str allowLit, .str starLit, .arr [exGetStar],
     .arr [arnPrefix ++ exBucket, arnPrefix ++ exBucket ++ [47, 42]]⟩]
 /-- the same with only the bucket resource and the object action `s3:GetObject`: kind mismatch -/
 def exDocBad : RawDoc := .stmts [⟨.str allowLit, .str starLit, .str exGetObject, .str (arnPrefix ++ exBucket)⟩]
+/-- former witness `validate:resource-prefix-of-other-bucket`: Resource `arn:aws:s3:::bucket2/*` -/
+def exDocPrefix : RawDoc := .stmts [⟨.str allowLit, .str starLit, .str exGetObject,
+    .str (arnPrefix ++ exBucket ++ [50, 47, 42])⟩]
+/-- former witness `validate:map-order-dependent`: Action `["s3:*","s3:GetObject"]`, Resource `arn:aws:s3:::bucket` -/
+def exDocOrder : RawDoc := .stmts [⟨.str allowLit, .str starLit, .arr [allActions, exGetObject],
+    .str (arnPrefix ++ exBucket)⟩]
 
 example : Sane exBucket := by decide
 example : WellFormed .strict exBucket (fun _ => false) exDocOK := by decide
 example : validateDocument id exBucket (fun _ => false) exDocOK = .ok () :=
   validate_accepts_wellformed id _ _ _ (by decide) rfl (fun l => List.Perm.refl l) (by decide)
 example : ¬ WellFormed .lenient exBucket (fun _ => false) exDocBad := by decide
-example : DocHyp StmtNoMissing exDocBad ∧ DocHyp (StmtNoForeignPrefix exBucket) exDocBad ∧
-    DocHyp (StmtOrderIndependent exBucket) exDocBad := by decide
+example : DocHyp StmtNoMissing exDocBad ∧ DocHyp StmtNoMissing exDocPrefix ∧ DocHyp StmtNoMissing exDocOrder := by
+  decide
 example : validateDocument id exBucket (fun _ => false) exDocBad ≠ .ok () :=
-  (validate_iff_wellformed_partial id _ _ _ (by decide) rfl (fun l => List.Perm.refl l)
-    (by decide) (by decide) (by decide)).2 (by decide)
+  (validate_iff_wellformed_partial id _ _ _ (by decide) rfl (fun l => List.Perm.refl l) (by decide)).2 (by decide)
 example : validateDocument id exBucket (fun _ => false) exDocBad = .error .resourceMismatch := by rfl
-example : allFirst [exGetObject, allActions] = [allActions, exGetObject] := by decide
-example : allLast [allActions, exGetObject] = [exGetObject, allActions] := by decide
-example : validateDocument allFirst exBucket (fun _ => false) exDocOK = .ok () :=
-  (validate_order_span id _ _ _ (fun l => List.Perm.refl l)).1
-    (validate_accepts_wellformed id _ _ _ (by decide) rfl (fun l => List.Perm.refl l) (by decide))
+example : validateDocument id exBucket (fun _ => false) exDocPrefix = .error .invalidResource := by rfl
+example : validateDocument id exBucket (fun _ => false) exDocOrder = .error .resourceMismatch := by rfl
+example : validateDocument List.reverse exBucket (fun _ => false) exDocOrder = .error .resourceMismatch :=
+  (validate_order_independent List.reverse id _ _ _ (fun l => List.reverse_perm l) (fun l => List.Perm.refl l)).trans
+    (by rfl)
 
 end Vgw.Props.C14
